@@ -123,6 +123,9 @@ func(_aes_cbc_enc_128_x4)
 	endbranch
 	FUNC_SAVE
 
+	test	LEN, LEN	; an empty message: nothing to read or write
+	jz	done
+
 	mov	IDX, 0
 	FILL_KEY_CACHE	 CKEY_CNT, FIRST_CKEY, KEYS, MOVDQ
 	CBC_ENC_INIT	 FIRST_XDATA, TMP, MOVDQ, PXOR, IV, IN, IDX
